@@ -49,12 +49,17 @@ def fams_for(prop, quick):
             # 122xx every probe lexeme of a type (incl. multi-byte strings, lexical variants, anchoring probes) as default at every level
             f += [12201, 12203, 12204, 12206, 12210, 12211, 12214, 12218, 12220]
             f += [12050]     # base-only substatements (fraction-digits) on a typedef reference
+            # 123xx default / narrowing at every level of the chain in every leaf context (mandatory, config false, status,
+            # if-feature, choice / case, list, presence container, grouping + uses, refine); 103xx the same chain as sibling
+            # leaves in different contexts
+            f += [12311, 12312, 10311]
             rand += [11001]
         else:
             f += [10000 + i for i in (1, 2, 3, 4, 5, 6, 11, 12, 13, 21, 22)] + [10110 + i for i in range(1, 9)] + [10120 + i for i in range(1, 7)] + [10131, 10132, 10133, 10140]
             f += [12001, 12002, 12003, 12004, 12010, 12101, 12102, 12103, 12104, 12105]
             f += [12020 + i for i in range(1, 9)] + [12030] + [12040 + i for i in range(1, 7)] + [10200 + i for i in range(1, 8)]
             f += [12200 + i for i in range(1, 22)] + [12050]
+            f += [12300 + i for i in range(1, 7)] + [10300 + i for i in range(1, 7)]
             rand += list(range(11001, 11007))
     else:
         f = [8000 + i for i in range(1, 9)] + [8010 + i for i in range(1, 7)] + [8020, 8021, 8022]
@@ -62,6 +67,10 @@ def fams_for(prop, quick):
         laws = [20002, 20003, 20004, 20005]
         # 1300x types with a large value set (also validated concurrently on first use); 12030 length limits
         f += [13001, 13002, 13003, 13004, 12030]
+        # 803x unions whose members refine the same typedef (side by side, through nested typedef'd / inline unions), typedefs
+        # of the same name in two modules; 92xx seeded random unions of that shape; 12306 such unions with defaults in every leaf context
+        f += [8038, 8039, 8040] if quick else [8030 + i for i in range(1, 8)] + [12306]
+        rand += [9201, 9202] if quick else list(range(9201, 9213))
         if quick:
             f += [10003, 10006, 10012, 10111, 10112, 10113, 10114, 10116, 10118, 10121, 10124, 10131, 10140]
             rand += [11101]
@@ -100,12 +109,14 @@ def f64_collapse(texts, probe=None):
 
 
 def chain_bound_texts(ch):
+    """bound and default texts of the decimal64 chains in ch (ch itself or, for a union, its members at any depth)"""
     out = []
     for lv in ch["levels"]:
-        for p in lv["rng"]:
-            out += [txt(p["lo"]), txt(p["hi"])]
-        if lv["hasDef"]:
-            out.append(txt(lv["def"]))
+        if ch["k"] == "decimal64":
+            for p in lv["rng"]:
+                out += [txt(p["lo"]), txt(p["hi"])]
+            if lv["hasDef"]:
+                out.append(txt(lv["def"]))
         for m in lv["members"]:
             out += chain_bound_texts(m)
     if ch["k"] == "decimal64":
@@ -152,7 +163,8 @@ def describe(ch):
         if l["hasDef"]:
             s.append("default %r" % txt(l["def"]))
         return "{" + "; ".join(s) + "}"
-    return ch["k"] + " " + " <- ".join(lv(l) for l in ch["levels"])
+    where = "" if ch.get("ctx", "plain") == "plain" else " [leaf: %s]" % ch["ctx"]
+    return ch["k"] + " " + " <- ".join(lv(l) for l in ch["levels"]) + where
 
 
 def compare(ctx, vec, obs, sites, found):
@@ -185,7 +197,9 @@ def compare(ctx, vec, obs, sites, found):
                        form="single-min-or-max-part" if any(single_minmax(c) for c in chains) else "plain")
             if len(chains) > 1:
                 sig["leaves"] = len(chains)
-            if sig["kind"] == "decimal64":
+            if any(c.get("ctx", "plain") != "plain" for c in chains):
+                sig["leafctx"] = sorted(set(c["ctx"] for c in chains if c.get("ctx", "plain") != "plain"))[0]
+            if sig["kind"] in ("decimal64", "union"):
                 sig["f64"] = "collapse" if any(f64_collapse(chain_bound_texts(c)) for c in chains) else "exact"
             rep(sig, "compile verdict: specification says %s (%s), compiler %s: %s" % ("ok" if vec["gok"] else "refuse", vec["gwhy"], "compiled" if obs["compiled"] else "refused", whole),
                 dict(want=dict(ok=vec["gok"], why=vec["gwhy"]), got=dict(compiled=obs["compiled"], error=obs.get("cerr"))))
@@ -193,7 +207,8 @@ def compare(ctx, vec, obs, sites, found):
     if not vec["gok"]:
         return judged
     judged += 1
-    if vec["gj"] and (vec["hasDef"] != obs["hasDef"] or (vec["hasDef"] and vec["def"] != obs["def"])) and "default" in sites:
+    # (dj: what Default() of a mandatory leaf reports is not judged)
+    if vec["gj"] and vec["dj"] and (vec["hasDef"] != obs["hasDef"] or (vec["hasDef"] and vec["def"] != obs["def"])) and "default" in sites:
         rep(dict(site="default", kind=kind, want="default" if vec["hasDef"] else "no-default"), "Default() of " + describe(ch),
             dict(want=dict(hasDef=vec["hasDef"], default=txt(vec["def"])), got=dict(hasDef=obs["hasDef"], default=txt(obs["def"]))))
     # every pass of the harness (kept errors inspected after the pass; forward through Type().Validate, reverse through
